@@ -19,10 +19,13 @@ FlowTwo == { <<FR(2, 1, 0, 1000), [FR(1, 1, 0, 2000) EXCEPT !.id = "f2"]>>, <<FR
 HotAll == { <<>> } \cup { <<HR(q, d, mq, sp)>> : q \in {0, 1, 2, 3}, d \in {1, 2}, mq \in {0, 500, 1000}, sp \in {<<>>, ("b" :> 1)} }
 HotSmall == { <<HR(2, 1, 1000, <<>>)>>, <<HR(3, 1, 500, ("b" :> 1))>>, <<HR(1, 2, 0, <<>>)>> }
 HotNone == { <<>> }
+\* beyond the listed property: more distinct values than the cache holds (least-recently-used replacement)
+HotLru == { <<[HR(q, 1, mq, <<>>) EXCEPT !.cap = c]>> : q \in {1, 2}, mq \in {0, 1000}, c \in {1, 2} }
+ArgLru == { <<"a">>, <<"b">>, <<"c">> }
 
-ArgSets == { <<"a">>, <<"b">> }
+ArgSets == IF DTSel = "lru" THEN ArgLru ELSE { <<"a">>, <<"b">> }
 \* arrivals: right away, 1 ms later, and a few spacings that land before / on / after scheduled slots
-DTs == IF DTSel = "min" THEN {0, 100, 334, 500} ELSE {0, 1, 100, 333, 334, 500, 1000, 2500}
+DTs == IF DTSel = "min" THEN {0, 100, 334, 500} ELSE IF DTSel = "lru" THEN {0, 100, 500, 1000} ELSE {0, 1, 100, 333, 334, 500, 1000, 2500}
 
 EnterEvents ==
     {[e |-> "enter", id |-> Len(hist), res |-> "r1", n |-> n, args |-> a,
@@ -50,6 +53,12 @@ GenBound == Len(hist) <= GenDepth /\ now[1] <= MaxT
 PrintBehaviour == (GenMode /\ Len(hist) = GenDepth) => PrintT(<<"REPLAY", ToJson(hist)>>)
 
 GoalQueued == ~(slept # Zero)
-GoalHotQueued == ~(\E id \in DOMAIN hlast : \E v \in DOMAIN hlast[id] : hlast[id][v] > now[1] - 1 /\ slept[1] >= 500)
+GoalHotQueued == ~(\E id \in DOMAIN hlast : \E v \in Vals(hlast[id]) : hlast[id][v] > now[1] - 1 /\ slept[1] >= 500)
+WithinCap == \A res \in DOMAIN hrule : LET r == hrule[res] IN
+                /\ Cardinality(Vals(hlast[r.id])) <= CapOf(r)
+                /\ {Order(hlast[r.id])[i] : i \in 1..Len(Order(hlast[r.id]))} = Vals(hlast[r.id])
+                /\ Len(Order(hlast[r.id])) = Cardinality(Vals(hlast[r.id]))
+\* a value was evicted and came back: it is in the cache with a schedule = now although it was seen before
+GoalLruFull == ~(\E id \in DOMAIN hlast : Cardinality(Vals(hlast[id])) = 2 /\ Order(hlast[id]) = <<"c", "a">> /\ now[1] >= 1000)
 GoalSubMs == ~(now[2] # 0)
 =============================================================================
